@@ -2,6 +2,7 @@
 // Modes: C01 (pair multiplicities), C02 (operator arguments / geometry), C06 (construction), C07 (structure),
 //        C08 (grouping independence), C16 (lookup).
 #include "vf_enum.hpp"
+#include "kernels/counterkernels/tbfinteractioncounter.hpp"
 
 using namespace vf;
 
@@ -106,6 +107,23 @@ void evalCase(const std::string& mode, const Spec& spec, Report& rep){
         if(fx.treeDigest(9) != before) out.add("execute:modified-symbolic-or-data", "cell headers or particle positions/indices/data changed by execute()");
         fx.checkConstruction(out, false);
         nontrivial = spec.parts.size() >= 2;
+    }
+    else if(mode == "C18"){
+        using CKernel = TbfInteractionCounter<typename FX::Kernel>;
+        using CAlgo = TbfAlgorithm<double, CKernel, SI>;
+        // plain run
+        FX plain(spec); plain.tag(); plain.cx.checkArgs = false; plain.template run<Algo>();
+        const u64 plainDigest = plain.treeDigest();
+        FX fx(spec); fx.tag(); fx.cx.checkArgs = false;
+        fx.activate();
+        CAlgo algo(fx.config, spec.upperLevel);
+        algo.execute(*fx.tree);
+        if(fx.treeDigest() != plainDigest) out.add("counter:results-changed-by-wrapper", "tree contents differ from the unwrapped kernel");
+        auto counters = typename CKernel::ReduceType();
+        algo.applyToAllKernels([&](const auto& k){ counters = CKernel::ReduceType::Reduce(counters, k.getReduceData()); });
+        FX::compareCounts(out, counters, fx.referenceCounts());
+        nontrivial = spec.parts.size() >= 2;
+        rep.counters["m2l_counted"] += counters.M2L;
     }
     else if(mode == "C07"){
         FX fx(spec);
@@ -216,6 +234,23 @@ std::vector<Space> spacesFor(const std::string& mode, const std::string& tier){
     const std::vector<long> up2 = {2};
     const std::vector<long> ups = {0,1,2};
     const bool c08 = (mode == "C08");
+    if(mode == "C18"){
+        s.push_back({1, 4, 0, mAll, bUnit, true, ups});
+        s.push_back({2, 3, 0, mFew, bUnit, true, up2});
+        s.push_back({3, 2, 0, mFew, bUnit, true, ups});
+        s.push_back({4, 2, 0, mOne, bUnit, true, up2});
+        s.push_back({3, 3, 2, {MMixed, MTwo}, bUnit, false, up2});
+        s.push_back({2, 4, 2, mOne, bUnit, false, up2});
+        s.push_back({3, 4, 1, mFew, bUnit, false, ups});
+        s.push_back({1, 6, 2, mOne, bUnit, false, up2});
+        if(thorough){
+            s.push_back({3, 4, 2, mOne, bUnit, false, up2});
+            s.push_back({1, 5, 0, mFew, bUnit, true, up2});
+            s.push_back({3, 5, 1, mFew, bUnit, false, ups});
+            s.push_back({2, 5, 2, mOne, bUnit, false, up2});
+        }
+        return s;
+    }
     // full occupancy-pattern spaces (<= 16 leaves)
     for(int h = 1 ; h <= 5 ; ++h) s.push_back({1, h, 0, (h == 5 && !structural) ? mFew : mFull, bUnit, true, up2});
     for(int h = 2 ; h <= 3 ; ++h) s.push_back({2, h, 0, (c08 && h == 3) ? mFew : mFull, bUnit, true, up2});
